@@ -1,0 +1,65 @@
+//go:build verif
+
+package excelize
+
+import "sort"
+
+// VerifC12State is a read-only snapshot of the two-tier part store of an
+// opened workbook: which parts are held in memory (File.Pkg), which are
+// spilled (File.tempFiles: part name -> temp file path), which worksheets are
+// decoded (File.Sheet), whether the shared string table is decoded and
+// whether the shared-string index temp file is open.
+type VerifC12State struct {
+	Pkg       map[string][]byte
+	Temp      map[string]string
+	Loaded    []string
+	SSTLoaded bool
+	SSTTemp   string
+}
+
+// VerifC12Dump returns the snapshot. It does not read temp files and does not
+// modify the workbook.
+func VerifC12Dump(f *File) VerifC12State {
+	st := VerifC12State{Pkg: map[string][]byte{}, Temp: map[string]string{}}
+	f.Pkg.Range(func(k, v interface{}) bool {
+		if b, ok := v.([]byte); ok {
+			st.Pkg[k.(string)] = b
+		} else {
+			st.Pkg[k.(string)] = nil
+		}
+		return true
+	})
+	f.tempFiles.Range(func(k, v interface{}) bool {
+		st.Temp[k.(string)] = v.(string)
+		return true
+	})
+	f.Sheet.Range(func(k, v interface{}) bool {
+		if v != nil {
+			st.Loaded = append(st.Loaded, k.(string))
+		}
+		return true
+	})
+	sort.Strings(st.Loaded)
+	st.SSTLoaded = f.SharedStrings != nil
+	if f.sharedStringTemp != nil {
+		st.SSTTemp = f.sharedStringTemp.Name()
+	}
+	return st
+}
+
+// VerifC12SheetPath returns the part name of a worksheet.
+func VerifC12SheetPath(f *File, sheet string) (string, bool) { return f.getSheetXMLPath(sheet) }
+
+// VerifC12ReadXML calls readXML (memory tier only).
+func VerifC12ReadXML(f *File, name string) []byte { return f.readXML(name) }
+
+// VerifC12ReadBytes calls readBytes (memory tier, else temp file with promotion).
+func VerifC12ReadBytes(f *File, name string) []byte { return f.readBytes(name) }
+
+// VerifC12SharedStringsLoader calls sharedStringsLoader.
+func VerifC12SharedStringsLoader(f *File) error { return f.sharedStringsLoader() }
+
+// VerifC12Names returns the constants the store uses as keys.
+func VerifC12Names() (sst, contentTypes, sstTempKey string) {
+	return defaultXMLPathSharedStrings, defaultXMLPathContentTypes, defaultTempFileSST
+}
